@@ -10,11 +10,14 @@ from frontend import AnalysisBroken, base_name
 from rules_own import OWN_SCOPE_FILES, OWN_SCOPE_UNITS
 
 M = "MEDDLY::"
+# legacy-interface files in which the ftype engine (but not the own engine, which knows only the new compute-table idioms) is armed
+FTYPE_EXTRA_FILES = {"operations/sat_pregen.cc", "sat_relations.cc"}
+FTYPE_UNITS = list(OWN_SCOPE_UNITS) + [u for u in ("operations/sat_pregen.cc", "sat_relations.cc") if u not in OWN_SCOPE_UNITS]
 
 
 def ftype_results(ctx):
     def run():
-        units = None if ctx.tier == "thorough" else OWN_SCOPE_UNITS
+        units = None if ctx.tier == "thorough" else FTYPE_UNITS
         raw = ctx.fe.run_engine("ftype", units)
         seen = {}
         for u in sorted(raw):
@@ -34,7 +37,7 @@ def _rule(ctx, name, desc, file_pred, floor, want_entry=None):
     fns, nunits = ftype_results(ctx)
     adv = 0
     for f in sorted(fns, key=lambda f: (f["file"], f["line"], f["inst"])):
-        armed = f["file"] in OWN_SCOPE_FILES
+        armed = f["file"] in OWN_SCOPE_FILES or f["file"] in FTYPE_EXTRA_FILES
         if f.get("gave_up"):
             if armed and file_pred(f["file"]):
                 raise AnalysisBroken("%s: state explosion in %s" % (name, f["inst"]))
@@ -70,6 +73,7 @@ SET_ALGEBRA = {"operations/union.cc", "operations/intersection.cc", "operations/
 ARITH = {f for f in OWN_SCOPE_FILES if f.startswith("operations/arith_")} | {"operations/compare.cc", "operations/dist_inc.cc", "operations/user_unary.cc", "operations/maxmin_range.cc"}
 IMAGE = {"operations/prepost_sets.cc", "operations/prepost_common.h", "operations/reach_trad.cc", "operations/satur_sets.cc", "rel_node.h", "forest.cc"}
 COPY = {"operations/copy.cc"}
+SATUR_EVENTS = {"operations/sat_pregen.cc", "sat_relations.cc"}
 ENTRY = {"oper_binary.cc", "oper_unary.cc", "oper_binary.h", "oper_unary.h", "forest.cc", "forest.h", "minterms.cc", "minterms.h", "io_mdds.cc", "dd_edge.cc", "dd_edge.h"}
 
 
@@ -87,6 +91,10 @@ def rule_mix_image(ctx):
 
 def rule_mix_copy(ctx):
     return _rule(ctx, "ftype.mix[copy]", "copy operations read the source forest and build in the target forest only", lambda f: f in COPY, 8, want_entry=False)
+
+
+def rule_mix_satur_events(ctx):
+    return _rule(ctx, "ftype.mix[satur-events]", "saturation over a partitioned relation (by events / by levels) and the relation splitter keep the state-set forest and the relation forest apart: every handle is used only with its own forest", lambda f: f in SATUR_EVENTS, 12, want_entry=False)
 
 
 def rule_ct_slots(ctx):
